@@ -23,8 +23,8 @@ from vlib.runner import SRC, derive_seed
 PROPERTY = "C20"
 LEVEL = "exploration"
 RULE = (
-    "(1) Fabrication: Hypothesis histories (<=25 steps quick, <=60 thorough) over one order with FIXTester as the exchange: "
-    "natural progress steps (ack, partial/full fill, pending cancel/replace, canceled, replaced, reject of a request, "
+    "(1) Fabrication: Hypothesis histories (<=25 steps quick, <=60 thorough) over one order (quantity / price from 0.0005 to 2.5 million, up to nine significant digits) with FIXTester as the exchange: "
+    "natural progress steps (ack, partial/full fill, order status reports (ExecType=I), pending cancel/replace, canceled, replaced, reject of a request, "
     "client cancel / replace, reset_messages(), reports for further orders registered on the same helper) interleaved with probes calling fix_exec_report_msg with EVERY drawn ExecType x OrdStatus and "
     "drawn cum/leaves/last quantities, price, order qty, ClOrdID in {current, original}, OrigClOrdID, some processed and some "
     "not; fix_cxlrep_reject_msg for every status; the five session factories over their argument ranges. Calls refused by the "
@@ -69,7 +69,7 @@ probe = st.tuples(
     st.sampled_from([None, None, "orig", "x"]), st.sampled_from([0.0, 101.25]), st.booleans(),
 )
 natural = st.tuples(st.just("natural"), st.sampled_from(["pending_new", "ack", "reject_new", "partial", "fill", "pending_cancel", "canceled", "pending_replace", "replaced",
-                                                        "expired", "suspended", "restated", "done_for_day", "trade_while_pending"]), st.sampled_from([0.25, 0.5, 0.1]), st.booleans())
+                                                        "expired", "suspended", "restated", "done_for_day", "trade_while_pending", "status", "status"]), st.sampled_from([0.25, 0.5, 0.1]), st.booleans())
 client = st.tuples(st.just("client"), st.sampled_from(["cancel", "replace-px", "replace-qty", "replace-both"]), st.sampled_from([150.0, 250.5]), st.sampled_from([5.0, 20.0, 12.5]))
 reject = st.tuples(st.just("reject"), st.sampled_from(OSS), st.booleans())
 housekeeping = st.sampled_from([("reset",), ("reset",), ("other-order",)])
@@ -81,7 +81,8 @@ class Run:
         self.acc = acc
         self.steps = steps
         self.ft = FIXTester(schema=None)
-        self.o = FIXNewOrderSingle("clordTest", "US.F.TICKER", side="1", price=200.0, qty=10.0)
+        q, px = (steps[0][1], steps[0][2]) if steps and steps[0][0] == "order" else (10.0, 200.0)
+        self.o = FIXNewOrderSingle("clordTest", "US.F.TICKER", side="1", price=px, qty=q)
         self.exec_ids = set()
         self.order_ids = set()
         self.last_req = None
@@ -163,6 +164,8 @@ class Run:
         self.ft.order_register_single(o)
         for i, s in enumerate(self.steps):
             k = s[0]
+            if k == "order":
+                continue
             if k == "probe":
                 _, et, os_, cq, lq, lastq, px, oq, which, orig, avg, do_process = s
                 cum = {"nan": NAN, "same": o.cum_qty, "inc-small": o.cum_qty + 1.0, "inc-half": o.cum_qty + (o.qty - o.cum_qty) / 2, "to-full": o.qty,
@@ -314,6 +317,12 @@ class Run:
             return dict(clord_id=cur, exec_type=E.SUSPENDED, ord_status=S.SUSPENDED, cum_qty=o.cum_qty, leaves_qty=lv_now)
         if what == "restated":
             return dict(clord_id=cur, exec_type=E.RESTATED, ord_status=S.NEW if o.cum_qty == 0 else S.PARTIALLY_FILLED, cum_qty=o.cum_qty, leaves_qty=lv_now)
+        if what == "status":
+            # answer to an OrderStatusRequest: ExecType=I with the order's present status and quantities
+            if o.status not in (S.NEW, S.PARTIALLY_FILLED, S.FILLED, S.CANCELED, S.SUSPENDED, S.EXPIRED, S.REJECTED):
+                return None
+            fin = str(o.status) in FIN
+            return dict(clord_id=cur, exec_type=E.ORDER_STATUS, ord_status=o.status, cum_qty=o.cum_qty, leaves_qty=0.0 if fin else lv_now)
         if what == "done_for_day":
             return dict(clord_id=cur, exec_type=E.DONE_FOR_DAY, ord_status=S.DONE_FOR_DAY, cum_qty=o.cum_qty, leaves_qty=lv_now)
         return None
@@ -326,11 +335,16 @@ WARM = [[], [("natural", "ack", 0.5, True)], [("natural", "pending_new", 0.5, Tr
 
 
 def fab_shard(acc, n, seed, maxlen):
-    strat = st.tuples(st.sampled_from(WARM), st.lists(step, min_size=4, max_size=maxlen)).map(lambda x: list(x[0]) + x[1])
+    # order size / price: small, seven and more digits, more than six significant digits, tiny
+    order = st.tuples(st.just("order"), st.sampled_from([10.0, 10.0, 2500000.0, 100000.5, 12345.678, 0.0005, 7.0]), st.sampled_from([200.0, 200.0, 1234567.25, 0.015625, 99.99]))
+    strat = st.tuples(order, st.sampled_from(WARM), st.lists(step, min_size=4, max_size=maxlen)).map(lambda x: [x[0]] + list(x[1]) + x[2])
     run_given(strat, lambda steps: Run(acc, steps).run(), n, seed)
 
 
 FIXED = [
+    [("order", 2500000.0, 1234567.25), ("natural", "ack", 0.5, True), ("natural", "partial", 0.25, True), ("natural", "partial", 0.5, True), ("natural", "fill", 0.5, True)],
+    [("order", 100000.5, 0.015625), ("natural", "ack", 0.5, True), ("natural", "partial", 0.5, True), ("natural", "partial", 0.999, True), ("natural", "status", 0.5, True)],
+    [("natural", "ack", 0.5, True), ("natural", "status", 0.5, True), ("natural", "partial", 0.25, True), ("natural", "status", 0.5, True), ("natural", "status", 0.5, False)],
     [("natural", "ack", 0.5, True), ("natural", "partial", 0.25, True), ("reset",), ("natural", "partial", 0.25, True), ("other-order",), ("natural", "fill", 0.5, True)],
     [("other-order",), ("natural", "ack", 0.5, True), ("reset",), ("other-order",), ("natural", "partial", 0.5, True)],
     # two reports fabricated back to back before the order processed any (OrderID must be stable)
